@@ -18,11 +18,18 @@ DEPS = ["spec/Grammar.tla", "spec/CanonLR.tla", "spec/Sim.tla", "spec/MCSim.cfg"
 def population(tier, seed):
     ss = gen.small_scope()
     rng = random.Random(seed * 7919 + 13)
+    fam_rng = random.Random(seed * 104729 + 7)
+    fams = []
+    for i in range(150 if tier == "quick" else 2500):
+        g = gen.lr1_not_lalr(fam_rng, i)
+        g["id"] = "xf%05d" % i
+        fams.append(g)
     if tier == "quick":
         pop = list(ss)
         pop += gen.random_population(seed, 300)
+        pop += fams
     else:
-        pop = list(ss)
+        pop = list(ss) + fams
         pop += gen.random_population(seed, 3000)
         pop += gen.random_population(seed + 1, 1500, max_nt=5, max_t=5, max_prods=12)
         # a sample of the next scope up (4 productions)
